@@ -177,3 +177,33 @@ Example raise_leaks_when_unfixed :
   snd (api 1 8 w_tree w_ispfx w_hook true (fst (api 1 8 w_tree w_ispfx w_hook true None [0x66; 0x0f])) [0x90])
     = OInstr (PI [0x90] []) w_nop.
 Proof. vm_compute. repeat split; discriminate. Qed.
+
+(* the returned instruction was built by a specification of the table, reached by the walk for some suffix *)
+Lemma call_spec_from_table e mb t pfx hook fixedflag : forall fuel pend bytes st i s,
+  call e mb t pfx hook fixedflag fuel pend bytes = (st, OInstr i s) ->
+  exists bs, In s (walk t (key_of e mb bs)) /\ fixed_match e s bs = true.
+Proof.
+  induction fuel as [|fuel IH]; intros pend bytes st i s; cbn [call]; [discriminate|].
+  assert (G : forall l, (forall x, In x l -> In x (walk t (key_of e mb bytes))) ->
+     (fix scan (l : list spec) : option pinstr * outcome :=
+        match l with
+        | [] => (None, ONone)
+        | s0 :: l' =>
+            match decode_one e hook s0 bytes pend with
+            | DRaise p => (if fixedflag then None else match p with Some q => Some q | None => pend end, ORaised)
+            | DOk i0 => if pfx s0 then call e mb t pfx hook fixedflag fuel (Some (PI (ibytes i0) (ipfx i0 ++ [s0]))) (skipn (nblen s0) bytes)
+                        else (None, OInstr i0 s0)
+            | _ => scan l'
+            end
+        end) l = (st, OInstr i s) -> exists bs, In s (walk t (key_of e mb bs)) /\ fixed_match e s bs = true).
+  { induction l as [|s0 l IHl]; intros Hsub; [discriminate|].
+    pose proof (decode_one_inv e hook s0 bytes pend) as Hinv.
+    destruct (decode_one e hook s0 bytes pend) as [| |p|i0].
+    - apply IHl. intros x Hx. apply Hsub. right; exact Hx.
+    - apply IHl. intros x Hx. apply Hsub. right; exact Hx.
+    - destruct fixedflag; discriminate.
+    - destruct Hinv as [Efm _]. destruct (pfx s0).
+      + apply IH.
+      + intros H. inversion H; subst. exists bytes. split; [apply Hsub; left; reflexivity|exact Efm]. }
+  apply G. intros x Hx; exact Hx.
+Qed.
